@@ -17,14 +17,21 @@ Warm(k) ==
     [] k \in {"h264", "h264_avc"} -> <<124, 133, 1, 2, 3>>                                   \* FU-A start
     [] k \in {"av1", "av1_legacy"} -> <<80, 2, 48, 1, 50, 2>>                                  \* Y=1: last element continues
     [] OTHER -> <<1, 2, 3>>
-One == [b \in 0..255 |-> <<b>>]
-Two == IF All2 THEN { <<a, b>> : a \in 0..255, b \in 0..255 } ELSE { <<a, b>> : a \in Alpha2, b \in Alpha2 }
-Three == { <<a, b, c>> : a \in Alpha3, b \in Alpha3, c \in Alpha3 }
-Strings == SetToSeq({ One[b] : b \in 0..255 } \cup Two \cup Three \cup {<<>>})
+\* short strings as index-arithmetic sequences (no sets of tuples: a 65 536-element set made the generator crawl)
+A2 == SetToSeq(Alpha2)
+A3 == SetToSeq(Alpha3)
+OneSeq == [b \in 1..256 |-> <<b - 1>>]
+TwoSeq == IF All2 THEN [j \in 1..65536 |-> <<(j - 1) \div 256, (j - 1) % 256>>]
+          ELSE [j \in 1..(Len(A2) * Len(A2)) |-> <<A2[((j - 1) \div Len(A2)) + 1], A2[((j - 1) % Len(A2)) + 1]>>]
+ThreeSeq == [j \in 1..(Len(A3) * Len(A3) * Len(A3)) |->
+               <<A3[((j - 1) \div (Len(A3) * Len(A3))) + 1], A3[(((j - 1) \div Len(A3)) % Len(A3)) + 1], A3[((j - 1) % Len(A3)) + 1]>>]
+Strings == << <<>> >> \o OneSeq \o TwoSeq \o ThreeSeq
+NStrings == Len(Strings)
+StringAt(i) == Strings[i]
 BytesCases(ki) ==
   LET k == Kinds[ki] IN
-  [j \in 1..(2 * Len(Strings)) |->
-     LET s == Strings[((j - 1) \div 2) + 1]  warm == j % 2 = 0 IN
+  [j \in 1..(2 * NStrings) |->
+     LET s == StringAt(((j - 1) \div 2) + 1)  warm == j % 2 = 0 IN
      [fam |-> "C09", kind |-> k, src |-> "bytes", items |-> IF warm THEN <<Warm(k), s, Warm(k)>> ELSE <<s>>, probes |-> TRUE, scribble |-> TRUE,
       class |-> k \o "_bytes" \o ToString(Len(s)) \o (IF warm THEN "_warm" ELSE "")]]
 
